@@ -3,7 +3,7 @@
     characters of strings and comments).  With FuelAll/StrWeight: the layout
     of pformat's document ends within (400 |v| + 1)^2 iterations. *)
 From Coq Require Import Lia.
-From PP Require Import Doc PyStr PyVal Consts Printers Normalize Layout StrTotal FuelAll StrWeight PrettyToks3.
+From PP Require Import Doc PyStr PyVal Consts Printers Normalize Layout StrTotal FuelAll StrWeight PrettyToks3 ReorderSum.
 
 Ltac inv H := inversion H; subst; clear H.
 
@@ -117,6 +117,711 @@ Proof.
   pose proof (comment_lines_wl (splitlines lb t)) as Hl.
   pose proof (intersperse_wl HardLine (map (comment_line sp) (splitlines lb t))) as Hi. rewrite map_length in Hi.
   cbn [length] in Ht. destruct (Nat.ltb _ _); ww; rewrite W_hard in Hi; lia.
+Qed.
+
+(** ---- combinators -------------------------------------------------------- *)
+Definition csz (d : doc) : nat := match is_commented d with Some c => length c | None => O end.
+Definition cost (d : doc) : nat := (W d + 20 * csz d + 50)%nat.
+Definition costl (l : list doc) : nat := fold_right (fun d a => (cost d + a)%nat) O l.
+Lemma costl_cons d l : costl (d :: l) = (cost d + costl l)%nat. Proof. reflexivity. Qed.
+Lemma costl_app a b : costl (a ++ b) = (costl a + costl b)%nat.
+Proof. induction a as [|x tl IH]; [reflexivity|]. cbn [app]. rewrite !costl_cons, IH. lia. Qed.
+
+Lemma uncomment_wt d : (W (uncomment d) <= W d)%nat.
+Proof. destruct d; cbn [uncomment]; try lia. destruct a; cbn; lia. Qed.
+
+Lemma commented_cost d c : is_commented d = Some c -> (W (commentdoc sp lb c) + W d + 26 <= cost d)%nat.
+Proof. intros H. unfold cost, csz. rewrite H. pose proof (commentdoc_wt c). lia. Qed.
+
+Lemma seq_parts_wl dangle : forall docs, (Wl (seq_parts sp lb docs dangle) <= costl docs)%nat.
+Proof.
+  induction docs as [|d tl IH]; [cbn; lia|]. cbn [seq_parts]. rewrite costl_cons.
+  destruct (is_commented d) as [c|] eqn:Ec.
+  - pose proof (commented_cost d c Ec). rewrite Wl_cons.
+    assert (Hc : (W (if negb match tl with [] => true | _ => false end || dangle then COMMA else Nil) <= 3)%nat)
+      by (destruct (_ || _); cbn; lia).
+    assert (Hn : (W (if match tl with [] => true | _ => false end then Nil else HardLine) <= 1)%nat)
+      by (destruct tl; cbn; lia).
+    ww. lia.
+  - unfold cost. destruct tl as [|y tl2]; [ww; lia|]. rewrite !Wl_cons. ww. lia.
+Qed.
+
+Lemma sequence_of_docs_wt ctx l docs r dangle fb :
+  (W (sequence_of_docs sp lb ctx l docs r dangle fb) <= costl docs + W l + W r + 20)%nat.
+Proof.
+  unfold sequence_of_docs, bracket. pose proof (seq_parts_wl dangle docs).
+  assert (Hd : (Wl (if dangle && negb (nonempty_docs docs &&
+                  match is_commented (last docs Nil) with Some _ => true | None => false end)
+                    then [COMMA] else []) <= 3)%nat) by (destruct (_ && _); cbn; lia).
+  destruct (_ || _); ww; lia.
+Qed.
+
+Lemma fncall_parts_wl : forall docs hc, (Wl (fst (fncall_parts sp lb docs hc)) <= costl docs)%nat.
+Proof.
+  induction docs as [|d tl IH]; intros hc; [cbn; lia|]. cbn [fncall_parts]. rewrite costl_cons.
+  specialize (IH (match is_commented d with Some _ => true | None => hc end)).
+  destruct (fncall_parts sp lb tl _) as [rest hc'] eqn:E. cbn [fst] in *. rewrite Wl_cons.
+  pose proof (uncomment_wt d) as Hu.
+  assert (Hc : (W (if match tl with [] => true | _ => false end then Nil else COMMA) <= 3)%nat)
+    by (destruct tl; cbn; lia).
+  assert (Hl : forall b : bool, (W (if b then HardLine else LINE) <= 2)%nat) by (intros []; cbn; lia).
+  destruct (is_commented d) as [c|] eqn:Ec.
+  - pose proof (commented_cost d c Ec). destruct tl; ww; try specialize (Hl true); lia.
+  - unfold cost. destruct tl; ww; try pose proof (Hl hc); lia.
+Qed.
+
+Lemma kwarg_doc_cost kv : (cost (kwarg_doc kv) <= cost (snd kv) + 10)%nat.
+Proof.
+  destruct kv as [b d]. cbn [snd]. unfold kwarg_doc, cost, csz.
+  destruct d; try (cbn [is_commented]; ww; lia).
+  destruct a; cbn [is_commented]; ww; lia.
+Qed.
+
+Lemma kwargs_costl kws : (costl (map kwarg_doc kws) <= costl (map snd kws) + 10 * length kws)%nat.
+Proof.
+  induction kws as [|kv tl IH]; [cbn; lia|]. cbn [map length]. rewrite !costl_cons.
+  pose proof (kwarg_doc_cost kv). lia.
+Qed.
+
+Lemma build_fncall_wt ctx f args kws hug :
+  (W (build_fncall sp lb ctx f args kws hug) <= W f + 20 + costl args + costl (map snd kws) + 10 * length kws)%nat.
+Proof.
+  unfold build_fncall. pose proof (kwargs_costl kws) as Hk.
+  destruct args as [|a tl], (map kwarg_doc kws) as [|k ktl] eqn:Ek; try (ww; lia).
+  - (* no args, some kwargs *)
+    cbn [andb]. rewrite andb_false_r. cbn [app].
+    pose proof (fncall_parts_wl (k :: ktl) false) as Hp.
+    destruct (fncall_parts sp lb (k :: ktl) false) as [parts hc]. cbn [fst] in Hp.
+    destruct hc; ww; cbn [costl fold_right] in *; lia.
+  - (* args, no kwargs *)
+    match goal with |- context [if ?b then _ else _] => destruct b eqn:Eh end.
+    + cbn [hd]. rewrite costl_cons. unfold cost. ww. lia.
+    + rewrite app_nil_r. pose proof (fncall_parts_wl (a :: tl) false) as Hp.
+      destruct (fncall_parts sp lb (a :: tl) false) as [parts hc]. cbn [fst] in Hp.
+      destruct hc; ww; lia.
+  - rewrite andb_false_r. cbn [andb].
+    pose proof (fncall_parts_wl ((a :: tl) ++ k :: ktl) false) as Hp. rewrite costl_app in Hp.
+    destruct (fncall_parts sp lb ((a :: tl) ++ k :: ktl) false) as [parts hc]. cbn [fst] in Hp.
+    destruct hc; ww; lia.
+Qed.
+
+Lemma call_alt_d_wt ctx f hug same nested kws :
+  (W (call_alt_d sp lb ctx f hug same nested kws)
+   <= 30 + Nat.max (costl (same tt)) (costl (nested tt) + costl (map snd (kws tt)) + 10 * length (kws tt)))%nat.
+Proof.
+  unfold call_alt_d, general_identifier. destruct (depth_le0 ctx); [ww; lia|].
+  destruct hug.
+  - pose proof (build_fncall_wt ctx (tok (cn_tok f) (cn_name f)) (same tt) [] true) as H. cbn [map length costl fold_right] in H.
+    rewrite W_tok in H. lia.
+  - pose proof (build_fncall_wt ctx (tok (cn_tok f) (cn_name f)) (nested tt) (kws tt) false) as H.
+    rewrite W_tok in H. lia.
+Qed.
+
+(** ---- the truncation notice --------------------------------------------- *)
+Lemma pos_digits_len : forall fuel n acc, (length (pos_digits fuel n acc) <= fuel + length acc)%nat.
+Proof.
+  induction fuel as [|f IH]; intros n acc; cbn [pos_digits]; [lia|].
+  destruct (n <? 10)%N; [cbn [length]; lia|]. specialize (IH (n / 10)%N ((48 + n mod 10)%N :: acc)). cbn [length] in IH. lia.
+Qed.
+
+Lemma repr_int_len z : (length (repr_int z) <= 2 + N.to_nat (N.log2 (Z.abs_N z)))%nat.
+Proof.
+  unfold repr_int. pose proof (pos_digits_len (S (N.to_nat (N.log2 (Z.abs_N z)))) (Z.abs_N z) []) as H.
+  cbn [length] in H. destruct (z <? 0); cbn [length]; lia.
+Qed.
+
+Lemma log2_le_self n : (N.to_nat (N.log2 n) <= N.to_nat n)%nat.
+Proof. destruct n as [|p]; [cbn; lia|]. pose proof (N.log2_lt_lin (N.pos p) ltac:(lia)). lia. Qed.
+
+Lemma trunc_comment_len (k : Z) (len : nat) : (0 <= k <= Z.of_nat len)%Z -> (length (trunc_comment k) <= 23 + len)%nat.
+Proof.
+  intros Hk. unfold trunc_comment. rewrite !app_length. cbn [length].
+  pose proof (repr_int_len k). pose proof (log2_le_self (Z.abs_N k)). lia.
+Qed.
+
+Definition olen (o : option str) : nat := match o with Some t => length t | None => O end.
+
+Lemma join_comments_len t tr : (length (join_comments t tr) <= length t + 2 + olen tr)%nat.
+Proof. unfold join_comments. destruct tr as [[|x xs]|]; cbn [olen]; rewrite ?app_length; cbn [length]; lia. Qed.
+
+Lemma tr'_len (ml : Z) (len : nat) tr : (0 <= ml)%Z ->
+  (olen (if (ml <? Z.of_nat len)%Z then Some (join_comments (trunc_comment (Z.of_nat len - ml)%Z) tr) else tr)
+   <= 25 + len + olen tr)%nat.
+Proof.
+  intros Hm. destruct (ml <? Z.of_nat len)%Z eqn:E; [|lia]. apply Z.ltb_lt in E. cbn [olen].
+  pose proof (join_comments_len (trunc_comment (Z.of_nat len - ml)%Z) tr).
+  pose proof (trunc_comment_len (Z.of_nat len - ml)%Z len ltac:(lia)). lia.
+Qed.
+
+Lemma costl_take {n} : forall l, (costl (take_z n l) <= costl l)%nat.
+Proof.
+  revert n. intros n l. revert n. induction l as [|x tl IH]; intros n; cbn [take_z]; [lia|].
+  destruct (n <=? 0)%Z; [cbn; lia|]. rewrite !costl_cons. specialize (IH (n - 1)%Z). lia.
+Qed.
+
+Lemma cost_commentdoc t : (cost (commentdoc sp lb t) <= 74 + 20 * length t)%nat.
+Proof. unfold cost, csz. pose proof (commentdoc_wt t). unfold commentdoc at 2. cbn [is_commented]. lia. Qed.
+
+(** sequences: [n] elements shown out of [len] *)
+Lemma seq_d_wt ctx kind len sub tr els : (0 <= c_maxlen ctx)%Z ->
+  (W (seq_d sp lb ctx kind len sub tr els) <= costl (els tt) + 20 * len + 20 * olen tr + 700)%nat.
+Proof.
+  intros Hm. unfold seq_d.
+  pose proof (tr'_len (c_maxlen ctx) len tr Hm) as Ht.
+  set (tr' := if (c_maxlen ctx <? Z.of_nat len)%Z then _ else tr) in *.
+  assert (Hb : forall k : nat, exists l r, (match k with 0%nat => (LBRACKET, RBRACKET) | 1%nat => (LPAREN, RPAREN) | _ => (LBRACE, RBRACE) end)
+                 = (l, r) /\ W l = 3%nat /\ W r = 3%nat /\ is_commented (Cat [l; ELLIPSIS; r]) = None).
+  { intros [|[|k]]; eexists; eexists; repeat split. }
+  destruct (Hb kind) as (l & r & -> & Hl & Hr & _).
+  destruct len as [|len'].
+  - destruct (_ && _); [ww; lia|]. unfold call_noargs.
+    pose proof (call_alt_d_wt ctx (match sub with Some c => c | None => cls_of match kind with 0%nat => n_list | 1%nat => n_tuple | _ => n_set end end)
+                  false (fun _ => []) (fun _ => []) (fun _ => [])) as H. cbn [costl fold_right map length] in H. lia.
+  - destruct (depth_is0 ctx).
+    + destruct (Nat.ltb kind 2).
+      * destruct (negb (is_some sub)); [ww; lia|].
+        pose proof (build_fncall_wt ctx (general_identifier (match sub with Some c => c | None => cls_of match kind with 0%nat => n_list | 1%nat => n_tuple | _ => n_set end end))
+                      [Cat [l; ELLIPSIS; r]] [] true) as H.
+        cbn [map length costl fold_right] in H. unfold cost, csz in H. cbn [is_commented] in H. revert H. unfold general_identifier. ww. lia.
+      * unfold call_ellipsis.
+        pose proof (call_alt_d_wt ctx (match sub with Some c => c | None => cls_of match kind with 0%nat => n_list | 1%nat => n_tuple | _ => n_set end end)
+                      false (fun _ => []) (fun _ => [ELLIPSIS]) (fun _ => [])) as H.
+        cbn [costl fold_right map length] in H. unfold cost, csz in H. cbn [is_commented ELLIPSIS tok] in H. revert H. ww. lia.
+    + set (els0 := match S len' with 1%nat => els tt | _ => take_z (c_maxlen ctx) (els tt) end).
+      assert (H0 : (costl els0 <= costl (els tt))%nat) by (subst els0; destruct len'; [lia|apply costl_take]).
+      assert (H1 : exists els1 dangle, (match tr' with Some t => (els0 ++ [commentdoc sp lb t], false)
+                                                    | None => (els0, Nat.eqb kind 1 && Nat.eqb (S len') 1) end) = (els1, dangle)
+                     /\ (costl els1 <= costl els0 + 74 + 20 * olen tr')%nat).
+      { destruct tr' as [t|]; eexists; eexists; (split; [reflexivity|]).
+        - rewrite costl_app, costl_cons. pose proof (cost_commentdoc t). cbn [olen costl fold_right]. lia.
+        - lia. }
+      destruct H1 as (els1 & dangle & -> & H1).
+      pose proof (sequence_of_docs_wt ctx l els1 r dangle (is_some tr')) as Hs.
+      destruct (negb (is_some sub)); [lia|].
+      set (lit := sequence_of_docs sp lb ctx l els1 r dangle (is_some tr')) in *.
+      pose proof (build_fncall_wt ctx (general_identifier (match sub with Some c => c | None => cls_of match kind with 0%nat => n_list | 1%nat => n_tuple | _ => n_set end end))
+                    [lit] [] true) as H.
+      cbn [map length costl fold_right] in H. unfold cost, csz in H.
+      assert (Hlc : is_commented lit = None).
+      { subst lit. unfold sequence_of_docs. destruct (_ || _); reflexivity. }
+      rewrite Hlc in H. revert H. unfold general_identifier. ww. lia.
+Qed.
+
+(** ---- dicts -------------------------------------------------------------- *)
+Definition tcost (t : doc * doc * (unit -> doc)) : nat :=
+  (cost (fst (fst t)) + (20 * csz (snd (fst t)) + 50 + Nat.max (W (snd (fst t))) (W (snd t tt))) + 30)%nat.
+Definition tcostl (l : list (doc * doc * (unit -> doc))) : nat := tsum tcost l.
+Lemma tcostl_cons t l : tcostl (t :: l) = (tcost t + tcostl l)%nat. Proof. reflexivity. Qed.
+
+Lemma dict_part_wt ctx last k0 v0 vp :
+  (W (fst (dict_part sp lb ctx last k0 v0 vp)) <= tcost (k0, v0, vp))%nat.
+Proof.
+  unfold dict_part, tcost. cbn [fst snd].
+  pose proof (uncomment_wt k0) as Hk. pose proof (uncomment_wt v0) as Hv.
+  assert (Hc : (W (if last then Nil else COMMA) <= 3)%nat) by (destruct last; cbn; lia).
+  assert (Hl : (W (if last then Nil else LINE) <= 2)%nat) by (destruct last; cbn; lia).
+  assert (Hh : (W (if last then Nil else HardLine) <= 1)%nat) by (destruct last; cbn; lia).
+  destruct (is_commented k0) as [kc|] eqn:Ek, (is_commented v0) as [vc|] eqn:Ev.
+  - pose proof (commented_cost k0 kc Ek). pose proof (commented_cost v0 vc Ev). unfold cost in *. ww. lia.
+  - pose proof (commented_cost k0 kc Ek). unfold cost in *. ww. lia.
+  - pose proof (commented_cost v0 vc Ev). unfold cost in *. ww. lia.
+  - unfold cost. ww. lia.
+Qed.
+
+Lemma dict_parts_wl ctx : forall l, (Wl (fst (dict_parts sp lb ctx l)) <= tcostl l)%nat.
+Proof.
+  induction l as [|[[k x] xp] tl IH]; [cbn; lia|]. cbn [dict_parts]. rewrite tcostl_cons.
+  pose proof (dict_part_wt ctx (match tl with [] => true | _ => false end) k x xp) as Hp.
+  destruct (dict_part sp lb ctx _ k x xp) as [part hc]. destruct (dict_parts sp lb ctx tl) as [rest hc'].
+  cbn [fst] in *. rewrite Wl_cons. lia.
+Qed.
+
+Lemma tcostl_take n : forall l, (tcostl (take_z n l) <= tcostl l)%nat.
+Proof.
+  revert n. intros n l. revert n. induction l as [|x tl IH]; intros n; cbn [take_z]; [lia|].
+  destruct (n <=? 0)%Z; [cbn; lia|]. rewrite !tcostl_cons. specialize (IH (n - 1)%Z). lia.
+Qed.
+
+Lemma dict_d_wt ctx sub tr so triples : (0 <= c_maxlen ctx)%Z -> NoDup so ->
+  (W (dict_d sp lb ctx sub tr so triples) <= tcostl (triples tt) + 20 * length (triples tt) + 20 * olen tr + 700)%nat.
+Proof.
+  intros Hm Hnd. unfold dict_d.
+  destruct (depth_is0 ctx).
+  { destruct (negb (is_some sub)); [ww; lia|].
+    pose proof (build_fncall_wt ctx (general_identifier (match sub with Some c => c | None => cls_of n_dict end))
+                  [Cat [LBRACE; ELLIPSIS; RBRACE]] [] true) as H.
+    cbn [map length costl fold_right] in H. unfold cost, csz in H. cbn [is_commented] in H. revert H.
+    unfold general_identifier. ww. lia. }
+  set (all := triples tt).
+  pose proof (tr'_len (c_maxlen ctx) (length all) tr Hm) as Ht.
+  set (tr' := if (c_maxlen ctx <? Z.of_nat (length all))%Z then _ else tr) in *.
+  set (ordered := if c_sort ctx then reorder all so else all).
+  assert (Ho : (tcostl ordered <= tcostl all)%nat).
+  { subst ordered. destruct (c_sort ctx); [apply reorder_le; exact Hnd|lia]. }
+  pose proof (tcostl_take (c_maxlen ctx) ordered) as Hs.
+  set (shown := take_z (c_maxlen ctx) ordered) in *.
+  pose proof (dict_parts_wl ctx shown) as Hp.
+  destruct (dict_parts sp lb ctx shown) as [parts0 hc0]. cbn [fst] in Hp.
+  set (parts := match tr' with Some t => parts0 ++ [Cat [HardLine; commentdoc sp lb t]] | None => parts0 end).
+  assert (Hparts : (Wl parts <= Wl parts0 + 30 + 20 * olen tr')%nat).
+  { subst parts. destruct tr' as [t|]; [|lia]. pose proof (commentdoc_wt t). cbn [olen]. ww. lia. }
+  set (d := if _ || _ then AlwaysBreak (bracket ctx LBRACE (Cat parts) RBRACE) else Group (bracket ctx LBRACE (Cat parts) RBRACE)).
+  assert (Hd : (W d <= Wl parts + 20)%nat /\ is_commented d = None).
+  { subst d. unfold bracket. destruct (_ || _); split; try reflexivity; ww; lia. }
+  destruct Hd as [Hd Hdc].
+  destruct (negb (is_some sub)); [lia|].
+  destruct parts as [|p0 ps] eqn:Ep.
+  - unfold call_noargs.
+    pose proof (call_alt_d_wt ctx (match sub with Some c => c | None => cls_of n_dict end)
+                  false (fun _ => []) (fun _ => []) (fun _ => [])) as H. cbn [costl fold_right map length] in H. lia.
+  - pose proof (build_fncall_wt ctx (general_identifier (match sub with Some c => c | None => cls_of n_dict end))
+                  [d] [] true) as H.
+    cbn [map length costl fold_right] in H. unfold cost, csz in H. rewrite Hdc in H. revert H.
+    unfold general_identifier. ww. lia.
+Qed.
+
+(** ---- leaves ------------------------------------------------------------- *)
+Lemma str_doc_wt ctx bytes s wrapc path : (W (str_doc ctx bytes s wrapc path) <= 101 + 80 * length s)%nat.
+Proof.
+  unfold str_doc. destruct (depth_is0 ctx); [unfold general_identifier; ww; lia|]. cbn [FuelAll.wt]. unfold cb_str. cbn [sp_s]. lia.
+Qed.
+Lemma str_doc_nc ctx bytes s wrapc path : is_commented (str_doc ctx bytes s wrapc path) = None.
+Proof. unfold str_doc. destruct (depth_is0 ctx); reflexivity. Qed.
+
+Lemma num_d_wt ctx t base lit sub : (W (num_d sp lb ctx t base lit sub) <= 140)%nat.
+Proof.
+  unfold num_d. destruct (depth_is0 ctx).
+  - unfold call_ellipsis.
+    pose proof (call_alt_d_wt ctx (match sub with Some c => c | None => cls_of base end)
+                  false (fun _ => []) (fun _ => [ELLIPSIS]) (fun _ => [])) as H.
+    cbn [costl fold_right map length] in H. unfold cost, csz in H. cbn [is_commented ELLIPSIS tok] in H. revert H. ww. lia.
+  - destruct sub as [c|]; [|ww; lia].
+    pose proof (build_fncall_wt ctx (general_identifier c) [tok t lit] [] false) as H.
+    cbn [map length costl fold_right] in H. unfold cost, csz in H. cbn [is_commented tok] in H. revert H.
+    unfold general_identifier. ww. lia.
+Qed.
+
+Lemma special_float_d_wt ctx name sub : (W (special_float_d sp lb ctx name sub) <= 300 + 80 * length name)%nat.
+Proof.
+  unfold special_float_d. destruct (depth_is0 ctx).
+  - unfold call_ellipsis.
+    pose proof (call_alt_d_wt ctx (match sub with Some c => c | None => cls_of n_float end)
+                  false (fun _ => []) (fun _ => [ELLIPSIS]) (fun _ => [])) as H.
+    cbn [costl fold_right map length] in H. unfold cost, csz in H. cbn [is_commented ELLIPSIS tok] in H. revert H. ww. lia.
+  - pose proof (call_alt_d_wt ctx (match sub with Some c => c | None => cls_of n_float end) false (fun _ => [])
+                  (fun _ => [str_doc (nested_hang ctx) false name None false]) (fun _ => [])) as H.
+    cbn [costl fold_right map length] in H. unfold cost, csz in H. rewrite str_doc_nc in H.
+    pose proof (str_doc_wt (nested_hang ctx) false name None false). lia.
+Qed.
+
+Lemma frozen_d_wt ctx len sub lst : is_commented (lst tt) = None ->
+  (W (frozen_d sp lb ctx len sub lst) <= W (lst tt) + 100)%nat.
+Proof.
+  intros Hc. unfold frozen_d. destruct len.
+  - unfold call_noargs.
+    pose proof (call_alt_d_wt ctx (match sub with Some c => c | None => cls_of n_frozenset end)
+                  false (fun _ => []) (fun _ => []) (fun _ => [])) as H. cbn [costl fold_right map length] in H. lia.
+  - pose proof (call_alt_d_wt ctx (match sub with Some c => c | None => cls_of n_frozenset end)
+                  true (fun _ => [lst tt]) (fun _ => []) (fun _ => [])) as H.
+    cbn [costl fold_right map length] in H. unfold cost, csz in H. rewrite Hc in H. lia.
+Qed.
+
+(** ---- no comment on what the per-type printers return -------------------- *)
+Lemma build_fncall_nc ctx f args kws hug : is_commented (build_fncall sp lb ctx f args kws hug) = None.
+Proof.
+  unfold build_fncall. destruct args, (map kwarg_doc kws); try reflexivity.
+  all: match goal with |- context [if ?b then _ else _] => destruct b end; try reflexivity.
+  all: match goal with |- context [fncall_parts sp lb ?l ?h] => destruct (fncall_parts sp lb l h) as [pp hc] end.
+  all: destruct hc; reflexivity.
+Qed.
+Lemma call_alt_d_nc ctx f hug same nested kws : is_commented (call_alt_d sp lb ctx f hug same nested kws) = None.
+Proof. unfold call_alt_d. destruct (depth_le0 ctx); [reflexivity|]. destruct hug; apply build_fncall_nc. Qed.
+Lemma sequence_nc ctx l docs r dangle fb : is_commented (sequence_of_docs sp lb ctx l docs r dangle fb) = None.
+Proof. unfold sequence_of_docs. destruct (_ || _); reflexivity. Qed.
+Lemma seq_d_nc ctx kind len sub tr els : is_commented (seq_d sp lb ctx kind len sub tr els) = None.
+Proof.
+  unfold seq_d.
+  destruct (match kind with 0%nat => (LBRACKET, RBRACKET) | 1%nat => (LPAREN, RPAREN) | _ => (LBRACE, RBRACE) end) as [l r].
+  destruct len.
+  - destruct (_ && _); [reflexivity|apply call_alt_d_nc].
+  - destruct (depth_is0 ctx).
+    + destruct (Nat.ltb kind 2); [destruct (negb _); [reflexivity|apply build_fncall_nc]|apply call_alt_d_nc].
+    + match goal with |- context [let '(a, b) := ?p in _] => destruct p as [els1 dangle] end.
+      destruct (negb _); [apply sequence_nc|apply build_fncall_nc].
+Qed.
+Lemma dict_d_nc ctx sub tr so triples : is_commented (dict_d sp lb ctx sub tr so triples) = None.
+Proof.
+  unfold dict_d. destruct (depth_is0 ctx); [destruct (negb _); [reflexivity|apply build_fncall_nc]|].
+  destruct (dict_parts sp lb ctx _) as [parts0 hc0].
+  destruct (negb _).
+  - destruct (_ || _); reflexivity.
+  - match goal with |- context [match ?x with [] => _ | _ :: _ => _ end] => destruct x end;
+      [apply call_alt_d_nc|apply build_fncall_nc].
+Qed.
+Lemma num_d_nc ctx t base lit sub : is_commented (num_d sp lb ctx t base lit sub) = None.
+Proof. unfold num_d. destruct (depth_is0 ctx); [apply call_alt_d_nc|]. destruct sub; [apply build_fncall_nc|reflexivity]. Qed.
+Lemma special_float_d_nc ctx name sub : is_commented (special_float_d sp lb ctx name sub) = None.
+Proof. unfold special_float_d. destruct (depth_is0 ctx); apply call_alt_d_nc. Qed.
+Lemma frozen_d_nc ctx len sub lst : is_commented (frozen_d sp lb ctx len sub lst) = None.
+Proof. unfold frozen_d. destruct len; apply call_alt_d_nc. Qed.
+
+(** ---- sizes --------------------------------------------------------------- *)
+Fixpoint vsz (v : pyval) : nat :=
+  match v with
+  | VList l | VTuple l | VSet l | VFrozenset l =>
+      S ((fix sum (l : list pyval) : nat := match l with [] => O | x :: tl => (vsz x + sum tl)%nat end) l)
+  | VDict kvs _ =>
+      S ((fix sum (l : list (pyval * pyval)) : nat :=
+            match l with [] => O | (k, x) :: tl => (vsz k + vsz x + sum tl)%nat end) kvs)
+  | VSub _ b => S (vsz b)
+  | VCommented x c | VTrailing x c => S (length c + vsz x)
+  | VCall _ args kwargs =>
+      S (((fix sum (l : list pyval) : nat := match l with [] => O | x :: tl => (vsz x + sum tl)%nat end) args +
+         (fix sum (l : list (str * pyval)) : nat :=
+            match l with [] => O | (_, x) :: tl => (vsz x + sum tl)%nat end) kwargs)%nat)
+  | VStr s | VBytes s | VPath _ s => S (length s)
+  | _ => 1%nat
+  end.
+
+Definition zsum (l : list pyval) : nat := fold_right (fun x a => (vsz x + a)%nat) O l.
+Definition zkv (l : list (pyval * pyval)) : nat := fold_right (fun kv a => (vsz (fst kv) + vsz (snd kv) + a)%nat) O l.
+Definition zkw (l : list (str * pyval)) : nat := fold_right (fun kv a => (vsz (snd kv) + a)%nat) O l.
+Lemma zsum_eq l : (fix sum (l : list pyval) : nat := match l with [] => O | x :: tl => (vsz x + sum tl)%nat end) l = zsum l.
+Proof. induction l as [|x tl IH]; cbn; auto. Qed.
+Lemma zkv_eq l : (fix sum (l : list (pyval * pyval)) : nat :=
+                    match l with [] => O | (k, x) :: tl => (vsz k + vsz x + sum tl)%nat end) l = zkv l.
+Proof. induction l as [|[k x] tl IH]; [reflexivity|]. unfold zkv in *. cbn [fold_right fst snd]. now rewrite IH. Qed.
+Lemma zkw_eq l : (fix sum (l : list (str * pyval)) : nat :=
+                    match l with [] => O | (_, x) :: tl => (vsz x + sum tl)%nat end) l = zkw l.
+Proof. induction l as [|[k x] tl IH]; [reflexivity|]. unfold zkw in *. cbn [fold_right fst snd]. now rewrite IH. Qed.
+
+(** every dict's sorted-order list is duplicate free (it is a permutation of the indices) *)
+Fixpoint sorted_ok (v : pyval) : Prop :=
+  match v with
+  | VList l | VTuple l | VSet l | VFrozenset l =>
+      (fix all (l : list pyval) : Prop := match l with [] => True | x :: tl => sorted_ok x /\ all tl end) l
+  | VDict kvs so =>
+      NoDup so /\
+      (fix all (l : list (pyval * pyval)) : Prop :=
+         match l with [] => True | (k, x) :: tl => sorted_ok k /\ sorted_ok x /\ all tl end) kvs
+  | VSub _ b => sorted_ok b
+  | VCommented x _ | VTrailing x _ => sorted_ok x
+  | VCall _ args kwargs =>
+      (fix all (l : list pyval) : Prop := match l with [] => True | x :: tl => sorted_ok x /\ all tl end) args /\
+      (fix all (l : list (str * pyval)) : Prop :=
+         match l with [] => True | (_, x) :: tl => sorted_ok x /\ all tl end) kwargs
+  | _ => True
+  end.
+Lemma ok_list l :
+  (fix all (l : list pyval) : Prop := match l with [] => True | x :: tl => sorted_ok x /\ all tl end) l ->
+  forall x, In x l -> sorted_ok x.
+Proof. induction l as [|y tl IH]; intros H x Hx; [destruct Hx|]. destruct H, Hx as [<-|Hx]; auto. Qed.
+Lemma ok_dict kvs :
+  (fix all (l : list (pyval * pyval)) : Prop :=
+     match l with [] => True | (k, x) :: tl => sorted_ok k /\ sorted_ok x /\ all tl end) kvs ->
+  forall k x, In (k, x) kvs -> sorted_ok k /\ sorted_ok x.
+Proof. induction kvs as [|[k0 x0] tl IH]; intros H k x Hx; [destruct Hx|]. destruct H as (A & B & C), Hx as [E|Hx]; [inv E; auto|eauto]. Qed.
+Lemma ok_kw (kw : list (str * pyval)) :
+  (fix all (l : list (str * pyval)) : Prop := match l with [] => True | (_, x) :: tl => sorted_ok x /\ all tl end) kw ->
+  forall k x, In (k, x) kw -> sorted_ok x.
+Proof. induction kw as [|[k0 x0] tl IH]; intros H k x Hx; [destruct Hx|]. destruct H, Hx as [E|Hx]; [inv E; auto|eauto]. Qed.
+
+Notation pretty_pv := (Printers.pretty_pv sp lb).
+Definition K : nat := 1000.
+
+Fixpoint cspec (v : pyval) (cm : option str) : nat :=
+  match v with
+  | VCommented x c => cspec x (Some c)
+  | VTrailing x _ => cspec x cm
+  | _ => olen (truthy cm)
+  end.
+
+Lemma olen_truthy o : (olen (truthy o) <= olen o)%nat.
+Proof. destruct o as [[|x xs]|]; cbn; lia. Qed.
+
+Lemma csz_finish cm d : is_commented d = None ->
+  csz (match truthy cm with Some c => Annot (AComment c) d | None => d end) = olen (truthy cm).
+Proof. intros H. destruct (truthy cm); cbn [olen]; unfold csz; [reflexivity|now rewrite H]. Qed.
+Lemma W_finish cm d : (W (match truthy cm with Some c => Annot (AComment c) d | None => d end) <= W d + 2)%nat.
+Proof. destruct (truthy cm); ww; lia. Qed.
+
+Lemma csz_pretty : forall v ctx cm tr, csz (pretty_pv v ctx cm tr) = cspec v cm.
+Proof.
+  induction v; intros ctx cm tr; cbn [Printers.pretty_pv cspec]; try solve [eauto]; apply csz_finish;
+    try reflexivity;
+    try apply num_d_nc; try apply special_float_d_nc; try apply str_doc_nc; try apply seq_d_nc;
+    try apply frozen_d_nc; try apply dict_d_nc; try apply call_alt_d_nc; try apply build_fncall_nc.
+  destruct v; try reflexivity;
+    try apply num_d_nc; try apply special_float_d_nc; try apply str_doc_nc; try apply seq_d_nc;
+    try apply frozen_d_nc; try apply dict_d_nc.
+Qed.
+
+Definition LinV (v : pyval) : Prop :=
+  sorted_ok v -> forall ctx cm tr, (0 <= c_maxlen ctx)%Z ->
+    (W (pretty_pv v ctx cm tr) + 20 * cspec v cm + 100 <= K * (vsz v + olen cm + olen tr))%nat.
+
+Lemma lin_cost x ctx : LinV x -> sorted_ok x -> (0 <= c_maxlen ctx)%Z ->
+  (cost (pretty_pv x ctx None None) + 50 <= K * vsz x)%nat.
+Proof.
+  intros HL Hok Hm. specialize (HL Hok ctx None None Hm). unfold cost. rewrite csz_pretty. cbn [olen] in HL. lia.
+Qed.
+
+Lemma lin_map (l : list pyval) ctx : (forall x, In x l -> LinV x /\ sorted_ok x) -> (0 <= c_maxlen ctx)%Z ->
+  (costl (map (fun x => pretty_pv x ctx None None) l) + 50 * length l <= K * zsum l)%nat.
+Proof.
+  intros H Hm. induction l as [|x tl IH]; [cbn; lia|]. cbn [map length]. rewrite costl_cons.
+  unfold zsum. cbn [fold_right]. fold (zsum tl).
+  destruct (H x (or_introl eq_refl)) as [HL Hok]. pose proof (lin_cost x ctx HL Hok Hm).
+  specialize (IH (fun y Hy => H y (or_intror Hy))). lia.
+Qed.
+
+Lemma lin_elems (l : list pyval) ctx : (forall x, In x l -> LinV x /\ sorted_ok x) -> (0 <= c_maxlen ctx)%Z ->
+  (costl (match l with
+          | [x] => [pretty_pv x (with_strategy (nested_call ctx) MPlain) None None]
+          | _ => map (fun x => pretty_pv x (nested_hang ctx) None None) l
+          end) + 50 * length l <= K * zsum l)%nat.
+Proof.
+  intros H Hm.
+  assert (G : forall c', (0 <= c_maxlen c')%Z ->
+            (costl (map (fun x => pretty_pv x c' None None) l) + 50 * length l <= K * zsum l)%nat)
+    by (intros; now apply lin_map).
+  destruct l as [|x [|y tl]]; apply G; exact Hm.
+Qed.
+
+Lemma lin_key ctx k : LinV k -> sorted_ok k -> (0 <= c_maxlen ctx)%Z ->
+  (cost (key_doc_ sp lb ctx k) + 50 <= K * vsz k)%nat.
+Proof.
+  intros HL Hok Hm.
+  assert (G : (cost (pretty_pv k (nested_call ctx) None None) + 50 <= K * vsz k)%nat) by (now apply lin_cost).
+  assert (S : forall b s w, (cost (str_doc (with_strategy ctx MParens) b s w false) + 50 <= K * (1 + length s))%nat).
+  { intros. unfold cost, csz. rewrite str_doc_nc. pose proof (str_doc_wt (with_strategy ctx MParens) b s w false).
+    unfold K. lia. }
+  destruct k; try exact G; try apply S. destruct k; try exact G; cbn [vsz key_doc_].
+  - pose proof (S false s (Some c)). unfold K in *. lia.
+  - pose proof (S true s (Some c)). unfold K in *. lia.
+Qed.
+
+Lemma lin_triples ctx kvs :
+  (forall k x, In (k, x) kvs -> (LinV k /\ sorted_ok k) /\ (LinV x /\ sorted_ok x)) -> (0 <= c_maxlen ctx)%Z ->
+  (tcostl (map (fun '(k, x) => (key_doc_ sp lb ctx k,
+                          pretty_pv x (with_strategy (nested_call ctx) MIndented) None None,
+                          fun _ : unit => pretty_pv x (with_strategy (nested_call ctx) MPlain) None None)) kvs)
+   + 70 * length kvs <= K * zkv kvs)%nat.
+Proof.
+  intros H Hm. induction kvs as [|[k x] tl IH]; [cbn; lia|]. cbn [map length]. rewrite tcostl_cons.
+  unfold zkv. cbn [fold_right fst snd]. fold (zkv tl).
+  destruct (H k x (or_introl eq_refl)) as [[HLk Hok] [HLx Hox]].
+  pose proof (lin_key ctx k HLk Hok Hm) as Hk.
+  pose proof (HLx Hox (with_strategy (nested_call ctx) MIndented) None None Hm) as H1.
+  pose proof (HLx Hox (with_strategy (nested_call ctx) MPlain) None None Hm) as H2.
+  unfold tcost. cbn [fst snd]. rewrite csz_pretty. cbn [olen] in *.
+  specialize (IH (fun k' x' Hin => H k' x' (or_intror Hin))). lia.
+Qed.
+
+Lemma zlist l : vsz (VList l) = S (zsum l). Proof. cbn [vsz]. now rewrite zsum_eq. Qed.
+Lemma ztuple l : vsz (VTuple l) = S (zsum l). Proof. cbn [vsz]. now rewrite zsum_eq. Qed.
+Lemma zset l : vsz (VSet l) = S (zsum l). Proof. cbn [vsz]. now rewrite zsum_eq. Qed.
+Lemma zfrozen l : vsz (VFrozenset l) = S (zsum l). Proof. cbn [vsz]. now rewrite zsum_eq. Qed.
+Lemma zdict kvs so : vsz (VDict kvs so) = S (zkv kvs). Proof. cbn [vsz]. now rewrite zkv_eq. Qed.
+Lemma zcall f a kw : vsz (VCall f a kw) = S (zsum a + zkw kw). Proof. cbn [vsz]. now rewrite zsum_eq, zkw_eq. Qed.
+
+Ltac leaf := unfold K; cbn [vsz]; lia.
+
+Lemma lin_seq ctx kind l sub tr cm :
+  (forall x, In x l -> LinV x /\ sorted_ok x) -> (0 <= c_maxlen ctx)%Z ->
+  (W (match truthy cm with
+      | Some c => Annot (AComment c) (seq_d sp lb ctx kind (length l) sub (truthy tr)
+                    (fun _ => match l with
+                              | [x] => [pretty_pv x (with_strategy (nested_call ctx) MPlain) None None]
+                              | _ => map (fun x => pretty_pv x (nested_hang ctx) None None) l
+                              end))
+      | None => seq_d sp lb ctx kind (length l) sub (truthy tr)
+                    (fun _ => match l with
+                              | [x] => [pretty_pv x (with_strategy (nested_call ctx) MPlain) None None]
+                              | _ => map (fun x => pretty_pv x (nested_hang ctx) None None) l
+                              end)
+      end) + 20 * olen (truthy cm) + 100 <= K * (S (zsum l) + olen cm + olen tr))%nat.
+Proof.
+  intros H Hm.
+  pose proof (W_finish cm (seq_d sp lb ctx kind (length l) sub (truthy tr)
+                    (fun _ => match l with
+                              | [x] => [pretty_pv x (with_strategy (nested_call ctx) MPlain) None None]
+                              | _ => map (fun x => pretty_pv x (nested_hang ctx) None None) l
+                              end))) as Hf.
+  pose proof (seq_d_wt ctx kind (length l) sub (truthy tr)
+                    (fun _ => match l with
+                              | [x] => [pretty_pv x (with_strategy (nested_call ctx) MPlain) None None]
+                              | _ => map (fun x => pretty_pv x (nested_hang ctx) None None) l
+                              end) Hm) as Hs.
+  cbv beta in Hs. pose proof (lin_elems l ctx H Hm) as He.
+  pose proof (olen_truthy cm). pose proof (olen_truthy tr). unfold K in *. lia.
+Qed.
+
+Lemma lin_kws (kwargs : list (str * pyval)) ctx :
+  (forall k x, In (k, x) kwargs -> LinV x /\ sorted_ok x) -> (0 <= c_maxlen ctx)%Z ->
+  (costl (map snd (map (fun kv : str * pyval => let '(k, x) := kv in (k, pretty_pv x ctx None None)) kwargs))
+   + 50 * length kwargs <= K * zkw kwargs)%nat.
+Proof.
+  intros H Hm. induction kwargs as [|[k x] tl IH]; [cbn; lia|]. cbn [map length snd]. rewrite costl_cons.
+  unfold zkw. cbn [fold_right snd]. fold (zkw tl).
+  destruct (H k x (or_introl eq_refl)) as [HL Hok]. pose proof (lin_cost x ctx HL Hok Hm).
+  specialize (IH (fun k' x' Hin => H k' x' (or_intror Hin))). lia.
+Qed.
+
+Lemma lin_n : forall n v, (vsize v <= n)%nat -> LinV v.
+Proof.
+  induction n as [|n IHn]; intros v Hn.
+  { destruct v; cbn in Hn; lia. }
+  destruct v as [z|b| | |r| | | |s|s|l|l|l|l|kvs so|w v|v c|v c|f args kwargs|w s|r];
+    intros Hok ctx cm tr Hm; cbn [Printers.pretty_pv cspec].
+  - pose proof (W_finish cm (num_d sp lb ctx T_NUMBER_INT n_int (repr_int z) None)).
+    pose proof (num_d_wt ctx T_NUMBER_INT n_int (repr_int z) None). pose proof (olen_truthy cm). leaf.
+  - pose proof (W_finish cm (tok T_KEYWORD_CONSTANT (if b then s_True else s_False))) as Hf. rewrite W_tok in Hf.
+    pose proof (olen_truthy cm). leaf.
+  - pose proof (W_finish cm (tok T_KEYWORD_CONSTANT s_None)) as Hf. rewrite W_tok in Hf. pose proof (olen_truthy cm). leaf.
+  - pose proof (W_finish cm ELLIPSIS) as Hf. change (W ELLIPSIS) with 3%nat in Hf. pose proof (olen_truthy cm). leaf.
+  - pose proof (W_finish cm (num_d sp lb ctx T_NUMBER_FLOAT n_float r None)).
+    pose proof (num_d_wt ctx T_NUMBER_FLOAT n_float r None). pose proof (olen_truthy cm). leaf.
+  - pose proof (W_finish cm (special_float_d sp lb ctx s_inf None)).
+    pose proof (special_float_d_wt ctx s_inf None) as Hs. cbn [length s_inf] in Hs. pose proof (olen_truthy cm). leaf.
+  - pose proof (W_finish cm (special_float_d sp lb ctx s_neginf None)).
+    pose proof (special_float_d_wt ctx s_neginf None) as Hs. cbn [length s_neginf] in Hs. pose proof (olen_truthy cm). leaf.
+  - pose proof (W_finish cm (special_float_d sp lb ctx s_nan None)).
+    pose proof (special_float_d_wt ctx s_nan None) as Hs. cbn [length s_nan] in Hs. pose proof (olen_truthy cm). leaf.
+  - pose proof (W_finish cm (str_doc ctx false s None false)). pose proof (str_doc_wt ctx false s None false).
+    pose proof (olen_truthy cm). leaf.
+  - pose proof (W_finish cm (str_doc ctx true s None false)). pose proof (str_doc_wt ctx true s None false).
+    pose proof (olen_truthy cm). leaf.
+  - rewrite vsize_list in Hn. rewrite zlist. apply lin_seq; [|exact Hm].
+    intros x Hx. split; [apply IHn; apply vsum_in in Hx; lia|exact (ok_list l Hok x Hx)].
+  - rewrite vsize_tuple in Hn. rewrite ztuple. apply lin_seq; [|exact Hm].
+    intros x Hx. split; [apply IHn; apply vsum_in in Hx; lia|exact (ok_list l Hok x Hx)].
+  - rewrite vsize_set in Hn. rewrite zset. apply lin_seq; [|exact Hm].
+    intros x Hx. split; [apply IHn; apply vsum_in in Hx; lia|exact (ok_list l Hok x Hx)].
+  - (* frozenset *)
+    rewrite vsize_frozenset in Hn. rewrite zfrozen.
+    assert (HA : forall x, In x l -> LinV x /\ sorted_ok x).
+    { intros x Hx. split; [apply IHn; apply vsum_in in Hx; lia|exact (ok_list l Hok x Hx)]. }
+    set (lst := fun _ : unit => seq_d sp lb ctx 0 (length l) None None
+                   (fun _ => match l with
+                             | [x] => [pretty_pv x (with_strategy (nested_call ctx) MPlain) None None]
+                             | _ => map (fun x => pretty_pv x (nested_hang ctx) None None) l
+                             end)).
+    pose proof (W_finish cm (frozen_d sp lb ctx (length l) None lst)) as Hf.
+    pose proof (frozen_d_wt ctx (length l) None lst (seq_d_nc _ _ _ _ _ _)) as Hz.
+    pose proof (seq_d_wt ctx 0 (length l) None None
+                   (fun _ => match l with
+                             | [x] => [pretty_pv x (with_strategy (nested_call ctx) MPlain) None None]
+                             | _ => map (fun x => pretty_pv x (nested_hang ctx) None None) l
+                             end) Hm) as Hs.
+    cbv beta in Hs. subst lst. cbv beta in Hz. pose proof (lin_elems l ctx HA Hm) as He.
+    pose proof (olen_truthy cm). cbn [olen] in Hs. unfold K in *. lia.
+  - (* dict *)
+    rewrite vsize_dict in Hn. rewrite zdict. destruct Hok as [Hnd Hok].
+    assert (HA : forall k x, In (k, x) kvs -> (LinV k /\ sorted_ok k) /\ (LinV x /\ sorted_ok x)).
+    { intros k x Hin. destruct (ok_dict kvs Hok k x Hin) as [Hk Hx]. apply kvsum_in in Hin.
+      repeat split; auto; apply IHn; lia. }
+    match goal with |- context [dict_d sp lb ctx None ?t so ?tri] =>
+      pose proof (W_finish cm (dict_d sp lb ctx None t so tri)) as Hf;
+      pose proof (dict_d_wt ctx None t so tri Hm Hnd) as Hd end.
+    cbv beta in Hd.
+    match type of Hd with context [tcostl ?m] =>
+      change m with (map (fun '(k, x) => (key_doc_ sp lb ctx k,
+                          pretty_pv x (with_strategy (nested_call ctx) MIndented) None None,
+                          fun _ : unit => pretty_pv x (with_strategy (nested_call ctx) MPlain) None None)) kvs) in * end.
+    pose proof (lin_triples ctx kvs HA Hm) as Ht. rewrite map_length in Hd.
+    pose proof (olen_truthy cm). pose proof (olen_truthy tr). unfold K in *. lia.
+  - (* sub *)
+    cbn [sorted_ok vsize] in Hok, Hn. cbn [vsz]. fold (vsz v).
+    destruct v as [z|b| | |r| | | |s|s|l|l|l|l|kvs so|w' v'|v' c'|v' c'|f' args' kwargs'|w' s|r].
+    all: try (pose proof (W_finish cm Nil) as Hf; rewrite W_nil in Hf; pose proof (olen_truthy cm); leaf).
+    + pose proof (W_finish cm (num_d sp lb ctx T_NUMBER_INT n_int (repr_int z) (Some w))).
+      pose proof (num_d_wt ctx T_NUMBER_INT n_int (repr_int z) (Some w)). pose proof (olen_truthy cm). leaf.
+    + pose proof (W_finish cm (num_d sp lb ctx T_NUMBER_FLOAT n_float r (Some w))).
+      pose proof (num_d_wt ctx T_NUMBER_FLOAT n_float r (Some w)). pose proof (olen_truthy cm). leaf.
+    + pose proof (W_finish cm (special_float_d sp lb ctx s_inf (Some w))).
+      pose proof (special_float_d_wt ctx s_inf (Some w)) as Hs. cbn [length s_inf] in Hs. pose proof (olen_truthy cm). leaf.
+    + pose proof (W_finish cm (special_float_d sp lb ctx s_neginf (Some w))).
+      pose proof (special_float_d_wt ctx s_neginf (Some w)) as Hs. cbn [length s_neginf] in Hs. pose proof (olen_truthy cm). leaf.
+    + pose proof (W_finish cm (special_float_d sp lb ctx s_nan (Some w))).
+      pose proof (special_float_d_wt ctx s_nan (Some w)) as Hs. cbn [length s_nan] in Hs. pose proof (olen_truthy cm). leaf.
+    + pose proof (W_finish cm (str_doc ctx false s (Some w) false)). pose proof (str_doc_wt ctx false s (Some w) false).
+      pose proof (olen_truthy cm). leaf.
+    + pose proof (W_finish cm (str_doc ctx true s (Some w) false)). pose proof (str_doc_wt ctx true s (Some w) false).
+      pose proof (olen_truthy cm). leaf.
+    + rewrite vsize_list in Hn. rewrite zlist.
+      pose proof (lin_seq ctx 0 l (Some w) tr cm) as H. cbv beta in H.
+      assert (HA : forall x, In x l -> LinV x /\ sorted_ok x).
+      { intros x Hx. split; [apply IHn; apply vsum_in in Hx; lia|exact (ok_list l Hok x Hx)]. }
+      specialize (H HA Hm). unfold K in *. lia.
+    + rewrite vsize_tuple in Hn. rewrite ztuple.
+      pose proof (lin_seq ctx 1 l (Some w) tr cm) as H. cbv beta in H.
+      assert (HA : forall x, In x l -> LinV x /\ sorted_ok x).
+      { intros x Hx. split; [apply IHn; apply vsum_in in Hx; lia|exact (ok_list l Hok x Hx)]. }
+      specialize (H HA Hm). unfold K in *. lia.
+    + rewrite vsize_set in Hn. rewrite zset.
+      pose proof (lin_seq ctx 2 l (Some w) tr cm) as H. cbv beta in H.
+      assert (HA : forall x, In x l -> LinV x /\ sorted_ok x).
+      { intros x Hx. split; [apply IHn; apply vsum_in in Hx; lia|exact (ok_list l Hok x Hx)]. }
+      specialize (H HA Hm). unfold K in *. lia.
+    + rewrite vsize_frozenset in Hn. rewrite zfrozen.
+      assert (HA : forall x, In x l -> LinV x /\ sorted_ok x).
+      { intros x Hx. split; [apply IHn; apply vsum_in in Hx; lia|exact (ok_list l Hok x Hx)]. }
+      set (lst := fun _ : unit => seq_d sp lb ctx 0 (length l) None None
+                   (fun _ => match l with
+                             | [x] => [pretty_pv x (with_strategy (nested_call ctx) MPlain) None None]
+                             | _ => map (fun x => pretty_pv x (nested_hang ctx) None None) l
+                             end)).
+      pose proof (W_finish cm (frozen_d sp lb ctx (length l) (Some w) lst)) as Hf.
+      pose proof (frozen_d_wt ctx (length l) (Some w) lst (seq_d_nc _ _ _ _ _ _)) as Hz.
+      pose proof (seq_d_wt ctx 0 (length l) None None
+                   (fun _ => match l with
+                             | [x] => [pretty_pv x (with_strategy (nested_call ctx) MPlain) None None]
+                             | _ => map (fun x => pretty_pv x (nested_hang ctx) None None) l
+                             end) Hm) as Hs.
+      cbv beta in Hs. subst lst. cbv beta in Hz. pose proof (lin_elems l ctx HA Hm) as He.
+      pose proof (olen_truthy cm). cbn [olen] in Hs. unfold K in *. lia.
+    + rewrite vsize_dict in Hn. rewrite zdict. destruct Hok as [Hnd Hok].
+      assert (HA : forall k x, In (k, x) kvs -> (LinV k /\ sorted_ok k) /\ (LinV x /\ sorted_ok x)).
+      { intros k x Hin. destruct (ok_dict kvs Hok k x Hin) as [Hk Hx]. apply kvsum_in in Hin.
+        repeat split; auto; apply IHn; lia. }
+      match goal with |- context [dict_d sp lb ctx (Some w) ?t so ?tri] =>
+        pose proof (W_finish cm (dict_d sp lb ctx (Some w) t so tri)) as Hf;
+        pose proof (dict_d_wt ctx (Some w) t so tri Hm Hnd) as Hd end.
+      cbv beta in Hd.
+      match type of Hd with context [tcostl ?m] =>
+        change m with (map (fun '(k, x) => (key_doc_ sp lb ctx k,
+                            pretty_pv x (with_strategy (nested_call ctx) MIndented) None None,
+                            fun _ : unit => pretty_pv x (with_strategy (nested_call ctx) MPlain) None None)) kvs) in * end.
+      pose proof (lin_triples ctx kvs HA Hm) as Ht. rewrite map_length in Hd.
+      pose proof (olen_truthy cm). pose proof (olen_truthy tr). unfold K in *. lia.
+  - (* commented *)
+    cbn [vsize sorted_ok vsz] in *. fold (vsz v).
+    pose proof (IHn v ltac:(lia) Hok ctx (Some c) (truthy tr) Hm) as H. cbn [olen] in H.
+    pose proof (olen_truthy tr). unfold K in *. lia.
+  - (* trailing *)
+    cbn [vsize sorted_ok vsz] in *. fold (vsz v).
+    pose proof (IHn v ltac:(lia) Hok ctx cm (Some c) Hm) as H. cbn [olen] in H. unfold K in *. lia.
+  - (* call *)
+    rewrite vsize_call in Hn. rewrite zcall. destruct Hok as [Ha Hk].
+    assert (HA : forall x, In x args -> LinV x /\ sorted_ok x).
+    { intros x Hx. split; [apply IHn; apply vsum_in in Hx; lia|exact (ok_list args Ha x Hx)]. }
+    match goal with |- context [call_alt_d sp lb ctx f ?h ?sa ?ne ?kw] =>
+      pose proof (W_finish cm (call_alt_d sp lb ctx f h sa ne kw)) as Hf;
+      pose proof (call_alt_d_wt ctx f h sa ne kw) as Hc end.
+    cbv beta in Hc.
+    pose proof (lin_map args ctx HA Hm) as H1. pose proof (lin_map args (nested_hang ctx) HA Hm) as H2.
+    assert (HK : forall k x, In (k, x) kwargs -> LinV x /\ sorted_ok x).
+    { intros k x Hin. split; [apply IHn; apply kwsum_in in Hin; lia|exact (ok_kw kwargs Hk k x Hin)]. }
+    pose proof (lin_kws kwargs (nested_hang ctx) HK Hm) as H3.
+    rewrite map_length in Hc. pose proof (olen_truthy cm). unfold K in *. lia.
+  - (* path *)
+    pose proof (W_finish cm (build_fncall sp lb ctx (general_identifier w) [str_doc ctx false s None true] [] false)) as Hf.
+    pose proof (build_fncall_wt ctx (general_identifier w) [str_doc ctx false s None true] [] false) as Hb.
+    cbn [map length costl fold_right] in Hb. unfold cost, csz in Hb. rewrite str_doc_nc in Hb.
+    pose proof (str_doc_wt ctx false s None true). unfold general_identifier in *. rewrite W_tok in Hb.
+    pose proof (olen_truthy cm). leaf.
+  - pose proof (W_finish cm (Text r)) as Hf. rewrite W_text in Hf. pose proof (olen_truthy cm). leaf.
 Qed.
 
 End LD.
